@@ -35,7 +35,7 @@ C.unit('C05', '_util:ArrayIndexer.__call__')
 # ----------------------------------------------------------------------------------------- _check_preprocessor
 def cp_cases():
   return [Case(k, {'self': Obj('Covariance', {'preprocessor': prep_param(k)}, closed=True)}) for k in ('none', 'callable', 'arraylike')] + \
-         [Case('invalid', {'self': Obj('Covariance', {'preprocessor': AnyRef(types={'other'})}, closed=True)})]
+         [Case('invalid', {'self': Obj('Covariance', {'preprocessor': AnyRef(types={'other'}, not_in=[None])}, closed=True)}, never_returns=True)]
 
 
 def cp_kind(a):
@@ -84,8 +84,10 @@ def cp_match(env, p):
 register(Contract(
     'base_metric:BaseMetricLearner._check_preprocessor',
     cases=cp_cases(), match=cp_match,
-    ensures={'preprocessor_-is-None-/-the-callable-/-an-ArrayIndexer': cp_ensures},
-    raises={'ValueError': Iff(lambda a: z3.BoolVal(cp_kind(a) == 'invalid'))},
+    ensures={'preprocessor_-is-None-/-the-callable-/-an-ArrayIndexer': cp_ensures,
+             'other-types-are-never-accepted': lambda a, r: z3.BoolVal(cp_kind(a) != 'invalid')},
+    # an array-like that scikit-learn cannot convert (ragged) is rejected by ArrayIndexer's check_array
+    raises={'ValueError': OnlyIf(lambda a: z3.BoolVal(cp_kind(a) in ('invalid', 'arraylike')))},
     modifies={'preprocessor_'}, returns=Returns(cp_returns), prop=['C05', 'C17']))
 C.unit('C05', 'base_metric:BaseMetricLearner._check_preprocessor')
 
